@@ -57,7 +57,30 @@ def fl(p):
 # spec -> real graph
 # --------------------------------------------------------------------------- #
 def build_vertices(spec):
-    return [Vertex(v["id"], mkpose(v["kind"], v["pose"]), fixed=bool(v.get("fixed", False))) for v in spec["vertices"]]
+    """spec["share"] (optional): groups of vertex ids whose initial poses share storage - the same pose *object*
+    (share_mode "object") or, for R^n poses, separate objects built from one numpy array (share_mode "array";
+    PoseR2/PoseR3 constructors do not copy a float64 array).  Legal client code: the library never promises to copy."""
+    shared = {}
+    groups = {}
+    for gi, grp in enumerate(spec.get("share", [])):
+        for vid in grp:
+            groups[vid] = gi
+    mode = spec.get("share_mode", "object")
+    out = []
+    for v in spec["vertices"]:
+        gi = groups.get(v["id"])
+        if gi is None:
+            pose = mkpose(v["kind"], v["pose"])
+        elif mode == "array" and v["kind"] in ("r2", "r3"):
+            if gi not in shared:
+                shared[gi] = np.array(v["pose"], dtype=np.float64)
+            pose = CLS[v["kind"]](shared[gi])
+        else:
+            if gi not in shared:
+                shared[gi] = mkpose(v["kind"], v["pose"])
+            pose = shared[gi]
+        out.append(Vertex(v["id"], pose, fixed=bool(v.get("fixed", False))))
+    return out
 
 
 def build_edge(e):
